@@ -6,7 +6,7 @@
    rendering into text (":" between fields, "," between blocks, optional blanks)
    is done by the harness.
 
-   Spec  - SpecVerdict / SpecDenote: what the expression denotes according to the
+   Spec  - (module RangeSpec) SpecAccepts / SpecDenote: what the expression denotes according to the
            property statement: every block an arithmetic progression from its
            first to its last field (ascending for a positive, descending for a
            negative stride; default stride 1), blocks concatenated in order.
@@ -29,48 +29,12 @@
    accepted <=> well formed and closed; iteration terminates (bound on the number of
    yielded values); what was yielded so far is a prefix of SpecDenote and equals it at
    the end; printing the parsed blocks and parsing again denotes the same sequence.   *)
-EXTENDS Integers, Sequences, FiniteSets, TLC, Json, CArith
+EXTENDS RangeSpec, FiniteSets, TLC, Json
 
 CONSTANTS Exprs,     \* set of expressions to check
-          NonNum,    \* integer standing for a non-numeric field; outside every window
           MaxYield,  \* a block never denotes more than this many values in the domain
           Fixed,     \* which version of the code is transcribed
           Emit
-
-(* ------------------------------ Spec ------------------------------------- *)
-Numeric(b)    == \A i \in 1..Len(b) : b[i] # NonNum
-WellFormed(b) == Len(b) \in 1..3 /\ Numeric(b)
-Beg(b) == b[1]
-Str(b) == IF Len(b) = 3 THEN b[2] ELSE 1
-End(b) == b[Len(b)]
-Malformed(b) == ~WellFormed(b) \/ Str(b) = 0
-Closed(b) == \/ Str(b) > 0 /\ Beg(b) <= End(b)
-             \/ Str(b) < 0 /\ Beg(b) >= End(b)
-
-\* the integers Beg, Beg+Str, Beg+2 Str, ... that lie between Beg and End (inclusive), in that order
-Denote(b) == IF ~Closed(b) THEN <<>>
-             ELSE LET n == (Abs(End(b) - Beg(b)) \div Abs(Str(b))) + 1
-                  IN  [k \in 1..n |-> Beg(b) + (k - 1) * Str(b)]
-
-RECURSIVE Concat(_, _)
-Concat(e, i) == IF i > Len(e) THEN <<>> ELSE Denote(e[i]) \o Concat(e, i + 1)
-
-AnyMalformed(e) == \E i \in 1..Len(e) : Malformed(e[i])
-AnyNonClosed(e) == \E i \in 1..Len(e) : ~Malformed(e[i]) /\ ~Closed(e[i])
-SpecAccepts(e)  == ~AnyMalformed(e) /\ ~AnyNonClosed(e)
-SpecDenote(e)   == Concat(e, 1)      \* meaningful when ~AnyMalformed(e)
-
-\* declarative cross-check of Denote: consecutive differences equal the stride, first element
-\* is Beg, all elements between Beg and End, and the progression cannot be extended
-DenoteLemma(b) ==
-  (~Malformed(b) /\ Closed(b)) =>
-     LET q == Denote(b)
-         lo == IF Beg(b) <= End(b) THEN Beg(b) ELSE End(b)
-         hi == IF Beg(b) <= End(b) THEN End(b) ELSE Beg(b)
-     IN /\ Len(q) >= 1 /\ q[1] = Beg(b)
-        /\ \A k \in 1..(Len(q) - 1) : q[k + 1] - q[k] = Str(b)
-        /\ \A k \in 1..Len(q) : q[k] \in lo..hi
-        /\ (q[Len(q)] + Str(b)) \notin lo..hi
 
 (* ------------------------------ Algo ------------------------------------- *)
 VARIABLES e,        \* the expression (never changes)
